@@ -426,3 +426,12 @@ LAWS = [
         mandatory=("vertex", "edge", "edge-extension", "level-with-vertex", "non-convex", "triangle", "reversed", "single-point-vs-polygons-in-two-planes")),
 ]
 REPLAY = {"segment_contains": replay_batch(run_seg), "polygon_contains": replay_batch(run_poly)}
+
+
+# ------------------------------------------------------------------------------------------- equivalent ways of asking
+from .. import forms as _forms  # noqa: E402
+
+LAWS.append(
+    Law("call_forms", lambda tier: _forms.call_forms_strategy("C16")(tier), _forms.run_call_forms("C16"), lambda c: True, lambda c: [c["entry"], f"d{c['d']}"], {"quick": 500, "thorough": 6000},
+        "the same question asked in several ways (positional / keyword arguments, method / function / operator form, symmetric argument orders) on the objects of the shared pool: same answer", shard=250)
+)
